@@ -69,11 +69,22 @@ func ruleT8(r *Run) {
 					}
 					return true
 				})
-				if readBack == nil {
-					continue // written but never copied out (surplus elements): not an instance
-				}
 				key := fmt.Sprintf("scratch slot %s in %s", slot.Name(), fname)
 				inside := slot.Pos() >= body.Pos() && slot.Pos() <= body.End()
+				if readBack == nil {
+					// written but never copied out (the surplus elements of a list longer than its array): the decoded values are
+					// thrown away, but what the handler REGISTERED in the reference table is not - a pointer element decoded
+					// into a shared slot re-uses the pointee, and a later reference to a surplus element resolves to the last one
+					if _, isVar := slot.(*types.Var); !isVar || slot.Parent() == nil || isParamOrResult(info, fd, slot) {
+						continue
+					}
+					if inside {
+						r.Ok(key+" (discarded elements)", dcall.Pos(), "allocated inside the iteration")
+					} else {
+						r.Viol(key+" (discarded elements)", dcall.Pos(), fmt.Sprintf("slot %s is allocated once outside the loop and filled by a DecodeHandler for every surplus element: the values are discarded but the handler has registered them in the reference table - for pointer elements the pointee is re-used, so a back-reference to any surplus element resolves to the last one decoded", slot.Name()))
+					}
+					continue
+				}
 				if inside {
 					r.Ok(key, dcall.Pos(), "allocated inside the iteration")
 				} else {
